@@ -633,7 +633,7 @@ def run_big(ctx, yaw, edges_choices):
         check_run(rb, "base", ident, base_meta, frame)
         ob = dict(counts=flat_counts(rb["cf"]), samp=flat_sampled(rb["cf"]))
         ctx.count(key=("large", sc, "base"), nontrivial=nonzero, kind="large:base")
-        ctx.sample(dict(par), limit=8)
+        ctx.sample(dict(par), limit=2)
 
         # ---- twins
         row_twins = ["shuffle", "move", rng.choice(["reverse", "shift1", "sort"])] if ctx.quick() else \
